@@ -165,6 +165,7 @@ type klResult struct {
 	err   error
 	lines []string
 	ws    syscall.WaitStatus
+	diag  string
 }
 
 // run starts the runner with the given probe script and collects report and wait status.
@@ -173,7 +174,8 @@ func (k *klaunch) run(script []string) *klResult {
 	if err != nil {
 		vcore.Harnessf("pipe: %v", err)
 	}
-	k.r.Files[k.reportFd] = w.Fd()
+	wfd := w.Fd()
+	k.r.Files[k.reportFd] = wfd
 	k.r.Args = append([]string{probePath, "out", fmt.Sprint(k.reportFd)}, script...)
 	res := &klResult{}
 	ok := watchdog(30*time.Second, func() {
@@ -187,9 +189,22 @@ func (k *klaunch) run(script []string) *klResult {
 		res.err = fmt.Errorf("verif: launch did not return")
 		return res
 	}
-	out.wait(5 * time.Second)
+	eof := out.wait(20 * time.Second)
 	res.lines = out.Lines()
+	if len(res.lines) == 0 {
+		res.diag = fmt.Sprintf("report pipe: write end was fd %d, reader saw end-of-file=%v; descriptors of the harness now: %s", wfd, eof, strings.Join(selfFds(), " "))
+	}
 	return res
+}
+
+func selfFds() []string {
+	var o []string
+	ents, _ := os.ReadDir("/proc/self/fd")
+	for _, e := range ents {
+		t, _ := os.Readlink("/proc/self/fd/" + e.Name())
+		o = append(o, e.Name()+"="+t)
+	}
+	return o
 }
 
 func (k *klaunch) done() {
@@ -223,7 +238,7 @@ func cKLaunchRun(prop string, wantState, wantFds bool) func(c *vcore.Ctx) *vcore
 			return vcore.Violate(prop, "launch_refused", "real_kernel", "Start failed on the real kernel: %v (vector %s, files %v)", res.err, k.vector, fdListK(filesBefore))
 		}
 		if !res.ws.Exited() || res.ws.ExitStatus() != 7 || len(field(res.lines, "uid")) == 0 {
-			return vcore.Violate(prop, "program_did_not_run", "real_kernel", "the probe did not run to its exit (wait status %#x, %d report lines; vector %s)", uint32(res.ws), len(res.lines), k.vector)
+			return vcore.Violate(prop, "program_did_not_run", "real_kernel", "the probe did not run to its exit (wait status %#x, %d report lines; vector %s) %s", uint32(res.ws), len(res.lines), k.vector, res.diag)
 		}
 		c.Probe("validated_on_real_kernel")
 		r := k.r
